@@ -1,7 +1,7 @@
 """C10 - PGN include/exclude filters are a pure selection of the unfiltered output."""
 from __future__ import annotations
 
-from ..lib import NMEA2000Decoder
+from ..lib import NMEA2000Decoder, PhysicalQuantities
 from .. import refdb, gen, hist, project
 
 ID = "C10"
@@ -31,7 +31,7 @@ def make_config(pool, rng, k):
     defs = pool.singles + pool.fasts
     kind = "exclude" if k % 2 == 0 else "include"
     style = ["numbers", "ids", "mixed", "ids", "mixed", "numbers"][k % 6]
-    n_entries = rng.choice([1, 1, 2, 3, 4])
+    n_entries = rng.choice([0, 1, 1, 1, 2, 2, 3, 4, 8])       # 0: the list names nothing but the address claim
     chosen = rng.sample(defs, min(n_entries, len(defs)))
     entries = []
     nums, ids = set(), set()
@@ -43,8 +43,12 @@ def make_config(pool, rng, k):
         else:
             entries.append(d.pgn)
             nums.add(d.pgn)
-    claim_mode = rng.choice(["none", "none", "number", "id"])
-    if claim_mode == "number":
+    claim_mode = rng.choice(["none", "none", "number", "id", "both"]) if chosen else rng.choice(["number", "id", "both"])
+    if claim_mode == "both":
+        entries += [60928, case_variants("isoAddressClaim", rng)]
+        nums.add(60928)
+        ids.add("isoaddressclaim")
+    elif claim_mode == "number":
         entries.append(60928)
         nums.add(60928)
     elif claim_mode == "id":
@@ -54,7 +58,27 @@ def make_config(pool, rng, k):
         entries.append(chosen[0].pgn)
         nums.add(chosen[0].pgn)
     rng.shuffle(entries)
+    if not chosen:
+        style = "claim-only"
     return {f"{kind}_pgns": entries}, nums, ids, kind, style, claim_mode
+
+
+def co_settings(dbx, rng):
+    """Other constructor settings, given alike to the filtered and to the reference decoder: the PGN filter must stay
+    a pure selection whatever else is configured."""
+    extra = {}
+    if rng.random() < 0.6:
+        return extra
+    if rng.random() < 0.5:
+        extra["build_network_map"] = True
+    if rng.random() < 0.5:
+        extra["preferred_units"] = {PhysicalQuantities.TEMPERATURE: rng.choice(["C", "f"]), PhysicalQuantities.PRESSURE: rng.choice(["bar", "PSI"]),
+                                    PhysicalQuantities.ANGLE: "deg", PhysicalQuantities.SPEED: "kts"}
+    if rng.random() < 0.5:
+        mtab = dbx.lookups["MANUFACTURER_CODE"]
+        names = [mtab[x] for x in rng.sample([1851, 1855, 137, 229], rng.randint(1, 2))]
+        extra[rng.choice(["exclude_manufacturer_code", "include_manufacturer_code"])] = [case_variants(n, rng) for n in names]
+    return extra
 
 
 def permitted(m, nums, ids, kind):
@@ -79,6 +103,8 @@ def run_shard(spec, acc):
         claims = {s: [hist.claim_name(rng.randrange((1 << 21) - 3), rng.choice([1851, 1855, 137, 229]), function=rng.choice([130, 140]),
                                       dev_class=rng.choice([25, 60])) for _ in range(2)] for s in sources}
         events = hist.build_history(pool, rng, sources, n_events, claims, p_same_seq=0.35)
+        extra = co_settings(dbx, rng)
+        kwargs.update(extra)
         try:
             filt = NMEA2000Decoder(**kwargs)
         except Exception as e:  # noqa: BLE001
@@ -94,7 +120,8 @@ def run_shard(spec, acc):
             continue
         if kwargs != snapshot:
             acc.violation("constructor-mutates-caller-list", f"filter list changed from {snapshot} to {kwargs} by constructing decoders", {"config": repr(snapshot)})
-        plain = NMEA2000Decoder()
+        plain = NMEA2000Decoder(**_copy.deepcopy(extra))
+        acc.cover("co_settings", "+".join(sorted(extra)) or "none")
         kept = removed = 0
         bad = None
         for pos, ev in enumerate(events):
